@@ -113,6 +113,10 @@ class CrossTalk(Stage):
         V = rm.vocab(specs)
         simple = ['wl_display', 'wl_registry', 'wl_callback', '.bind', '.sync', '.delete_id', '.new', '.destroyed', '2', '3'] + [
             str(t) for t in V.get('type', [])[:6]] + ['.' + str(n) for n in V.get('name', [])[:8]]
+        # the same spelling as a quoted string and as a bare word / object: different alternatives that print alike
+        bound = [x for x in (V.get('str') or []) if x in ('wl_seat', 'wl_shm', 'wl_compositor', 'wl_output', 'xdg_wm_base')][:2]
+        for w in bound:
+            simple += ['.("%s")' % w, w, '(%s)' % w, '.("%s")' % w]
         items = []
         for _ in range(d.int(2, 7)):
             alts = [d.choice(simple) for _ in range(d.int(0 if items else 1, 2))]
@@ -124,8 +128,24 @@ class CrossTalk(Stage):
                 items.append(['cmd', 'filter ' + t, None, dict(alts=alts, excl=excl)])
             else:
                 items.append(['cmd', 'breakpoint ' + t])
-        for m in specs:
-            items.append(['line', wire.render(m, 'new'), m['conn']])
+        twin = None
+        if d.chance(0.3):
+            # twins accumulated by two commands: a quoted string, then the same spelling as a bare object (or the other way round);
+            # a registry announcing that interface is selected by the string alternative only
+            twin = d.choice(['wl_seat', 'wl_shm', 'wl_compositor'])
+            pair = ['.("%s")' % twin, twin]
+            if d.chance(0.3):
+                pair.reverse()
+            for a in pair:
+                items.append(['cmd', 'filter ' + a, None, dict(alts=[a], excl=[])])
+        lines = [['line', wire.render(m, 'new'), m['conn']] for m in specs]
+        if twin:
+            for _ in range(d.int(1, 2)):
+                k = d.int(0, len(lines))
+                ref = specs[min(k, len(specs) - 1)]
+                tagtxt = ('<%s> ' % ref['conn']) if ref['conn'] is not None else ''
+                lines.insert(k, ['line', wire.timestamp(ref['t_us'], 'new') + tagtxt + 'wl_registry#%d.global(%d, "%s", %d)' % (900 + d.int(0, 5), d.int(1, 40), twin, d.int(1, 9)), ref['conn']])
+        items += lines
         return dict(dialect='new', specs=specs, initial_filter=None, items=items)
 
     def execute(self, case):
